@@ -577,6 +577,52 @@ theorem opens_frame (body : List (Op × Bool)) :
       · simp only [he, hx] at hb
         exact ih d d' _ q base hb (by simp [opens, he, hx, hs]) hq
 
+/-- cutting commutes with dropping a tail that the filter rejects anyway -/
+theorem filter_cut_append (fault : Option EventId) (q : EventId → Bool) (A B : List EventId)
+    (hA : ∀ e ∈ A, q e = true) (hB : ∀ e ∈ B, q e = false) :
+    (cutIds fault (A ++ B)).filter q = cutIds fault A := by
+  induction A with
+  | nil => simpa [cutIds] using filter_cutIds_nil fault q B (filter_all_false q B hB)
+  | cons a A ih =>
+    have ha : q a = true := hA a List.mem_cons_self
+    have ih' := ih (fun e he => hA e (List.mem_cons_of_mem _ he))
+    simp only [List.cons_append, cutIds]
+    split
+    · simp [ha]
+    · simp [ha, ih']
+
+theorem beforePart_notPost (cls : Cls) : ∀ e ∈ beforePart cls, (e.kind != "post") = true := by
+  intro e he
+  rcases beforePart_kind cls e he with h | h | h <;> simp [h]
+
+theorem beforePart_preGuard (cls : Cls) : ∀ e ∈ beforePart cls, preGuard e = true := by
+  intro e he
+  rcases beforePart_kind cls e he with h | h | h <;> simp [preGuard, h]
+
+/-- the switch as the model's `__init__` finds it at the validators step, spelled out: the position at the
+    start of the call moved by the body once per call of the probing callback among pre-init hook, factories
+    and converters (up to a failing one) -/
+theorem guardRun_eq (c : Case) (cls : Cls) (run : Bool)
+    (hwf : C02.wf (initCase cls true c.fault) = true) :
+    guardRun c cls run = iterB (probeCount c (cutIds c.fault (beforePart cls))) (bodyStep c) run := by
+  unfold guardRun
+  have h := (construct_spec cls false c.fault hwf).1
+  simp only [h, constructPlan_struct, Bool.false_eq_true, if_false, List.append_nil]
+  rw [filter_cut_append c.fault (fun e => e.kind != "post") _ _ (beforePart_notPost cls)
+        (fun e he => by simp [afterPart_kind cls e he])]
+
+/-- the callbacks observed before the validators step of a construction -/
+theorem preGuard_of_construct (fault : Option EventId) (cls : Cls) (g : Bool) :
+    (cutIds fault (constructPlan cls g)).filter preGuard = cutIds fault (beforePart cls) := by
+  rw [constructPlan_struct, List.append_assoc]
+  apply filter_cut_append fault preGuard _ _ (beforePart_preGuard cls)
+  intro e he
+  rcases List.mem_append.1 he with h | h
+  · split at h
+    · simp [preGuard, validatorPlan_kind _ e h]
+    · cases h
+  · simp [preGuard, afterPart_kind cls e h]
+
 theorem stepOk_model (c : Case) (hI : ∀ cls ∈ c.classes, C02.wf (initCase cls true c.fault) = true) (st : St)
     (hist : List (Op × Bool)) (op : Op) (hs : st.stack = opens 0 hist)
     (hx : op.isExit = true → st.stack ≠ [])
@@ -609,8 +655,10 @@ theorem stepOk_model (c : Case) (hI : ∀ cls ∈ c.classes, C02.wf (initCase cl
     cases hk : c.classes[k]? with
     | none => simp [opOk, hk] at ha
     | some cls =>
-      have h := construct_spec cls run c.fault (hI cls (List.mem_of_getElem? hk))
-      simp only [runOutcome, stepObs, hk, mkStep, stepSt, h.1, h.2, beq_self_eq_true, Bool.and_self]
+      have hw := hI cls (List.mem_of_getElem? hk)
+      have h := construct_spec cls (guardRun c cls run) c.fault hw
+      simp only [runOutcome, stepObs, hk, mkStep, stepSt, h.1, h.2, preGuard_of_construct,
+        ← guardRun_eq c cls run hw, beq_self_eq_true, Bool.and_self]
   | assign k i v =>
     cases hk : c.classes[k]? with
     | none => simp [opOk, hk] at ha
@@ -664,16 +712,39 @@ theorem specGo_model (c : Case) (hI : ∀ cls ∈ c.classes, C02.wf (initCase cl
         | nil => exact absurd hst (hx rfl)
         | cons p rest => simpa [hst] using hb
 
-/-- observations depend on the case only through its classes and the faulty callback -/
-theorem stepObs_congr (c c' : Case) (h1 : c.classes = c'.classes) (h2 : c.fault = c'.fault) (st st' : St) (op : Op) :
+/-- observations depend on the case only through its classes, the faulty callback and the probing callback -/
+theorem stepObs_congr (c c' : Case) (h1 : c.classes = c'.classes) (h2 : c.fault = c'.fault)
+    (h3 : c.probe = c'.probe) (h4 : c.body = c'.body) (st st' : St) (op : Op) :
     stepObs c st st' op = stepObs c' st st' op := by
-  cases op <;> simp only [stepObs, h1, h2]
+  have hb : bodyStep c = bodyStep c' := by funext b; simp only [bodyStep, h4]
+  cases op <;> simp only [stepObs, guardRun, probeCount, hb, h1, h2, h3]
 
 theorem runOpsWith_congr (stf : St → Op → St) (c c' : Case) (h1 : c.classes = c'.classes) (h2 : c.fault = c'.fault)
+    (h3 : c.probe = c'.probe) (h4 : c.body = c'.body)
     (st : St) (l : List Op) : runOpsWith stf c st l = runOpsWith stf c' st l := by
   induction l generalizing st with
   | nil => rfl
-  | cons x xs ih => simp only [runOpsWith, stepObs_congr c c' h1 h2, ih]
+  | cons x xs ih => simp only [runOpsWith, stepObs_congr c c' h1 h2 h3 h4, ih]
+
+theorem opOk_noProbe (c : Case) (op : Op) : opOk { c with probe := none } op = opOk c op := by
+  cases op <;> rfl
+
+/-- consecutive runs of the body, each from where the previous one left the cell -/
+theorem nestedRuns_model (c : Case) (hI : ∀ cls ∈ c.classes, C02.wf (initCase cls true c.fault) = true)
+    (hb : (bal 0 c.body).isSome = true) (hok : ∀ op ∈ c.body, opOk c op = true) :
+    ∀ (n : Nat) (cur : Bool),
+      nestedRuns c cur ((List.range n).map (fun j => runBody c (iterB j (bodyStep c) cur))) = true := by
+  intro n
+  induction n with
+  | zero => intro cur; rfl
+  | succ n ih =>
+    intro cur
+    rw [List.range_succ_eq_map]
+    simp only [List.map_cons, List.map_map, nestedRuns, Bool.and_eq_true]
+    refine ⟨?_, ?_⟩
+    · exact specGo_model { c with probe := none } hI c.body { run := cur, stack := [] } [] rfl hb
+        (fun op hop => by rw [opOk_noProbe]; exact hok op hop)
+    · exact ih (bodyStep c cur)
 
 /-- the nested observations of the model satisfy the nested part of the specification -/
 theorem nestedOk_model (c : Case) (hI : ∀ cls ∈ c.classes, C02.wf (initCase cls true c.fault) = true)
@@ -686,17 +757,11 @@ theorem nestedOk_model (c : Case) (hI : ∀ cls ∈ c.classes, C02.wf (initCase 
   | cons op ops ih =>
     intro st
     simp only [runOpsWith, runNestedWith, nestedOk, Bool.and_eq_true]
-    refine ⟨?_, ?_⟩
-    · unfold nestedOf
-      cases hp : c.probe with
-      | none => rfl
-      | some p =>
-        have hev : (stepObs c st (stepSt st op) op).events = (stepObs c st st op).events := by
-          cases op <;> simp only [stepObs, mkStep] <;> (repeat' split) <;> rfl
-        simp only [List.length_replicate, hev, beq_self_eq_true, Bool.true_and, List.all_eq_true]
-        intro inv hinv
-        rw [List.eq_of_mem_replicate hinv]
-        exact specGo_model c hI c.body { run := st.run, stack := [] } [] rfl hb hok
+    refine ⟨⟨?_, ?_⟩, ?_⟩
+    · have hev : (stepObs c st (stepSt st op) op).events = (stepObs c st st op).events := by
+        cases op <;> simp only [stepObs, mkStep] <;> (repeat' split) <;> rfl
+      simp [nestedOf, hev]
+    · exact nestedRuns_model c hI hb hok _ st.run
     · rw [(stepObs_views c st (stepSt st op) op).1, toBool_ofBool]
       exact ih _
 
